@@ -21,12 +21,12 @@ for p in props:
             'quick_cmd': './check %s --tier quick' % pid,
             'thorough_cmd': './check %s --tier thorough' % pid,
             'evidence_file': 'evidence/%s.json' % pid,
-            'replay_cmd_template': 'cat {path}/README.txt',
+            'replay_cmd_template': 'cat {path}/README.txt; sh {path}/replay.sh',
             'engine': 'ir2c+cbmc',
             'level_claimed': {'category': 'model_checking',
                               'text': c.get('text', 'bounded symbolic model checking of the anchored functions (see DESIGN.md)'),
                               'design_ref': 'DESIGN.md §4 ' + pid},
-            'level_note': c.get('note', 'trusted: ir2c translator, clang -O1 lowering, CBMC/SAT, libstdc++/libc models (engine/models), contract stubs listed in the evidence file'),
+            'level_note': c.get('note', 'trusted: ir2c translator, clang -O1 lowering, CBMC/SAT, libstdc++/libc models (engine/models), contract stubs and bounds listed in the evidence file; everything beyond the stated bounds is outside the claim'),
             'technique': c.get('technique', 'LLVM IR of the real functions -> C (ir2c) -> CBMC bounded model checking, symbolic inputs; harness entries: ' + ', '.join(have[pid])),
         })
     else:
@@ -36,11 +36,12 @@ m = {
     'setup_cmd': 'python3 tools/setup_check.py',
     'hooks': {'guard': 'LIBABIGAIL_VERIF', 'enable': 'none needed: instrumentation is done on the LLVM IR of the unmodified sources',
               'baseline_off_cmd': 'cd /repo && make -k check', 'source_commits': [], 'add_only': True},
+    # (no hook commits: the only commits made in /repo are the unguarded "fix:" commits listed in known-findings.txt)
     'engines': [{'name': 'ir2c+cbmc', 'path': 'engine/ir2c.py', 'serves_properties': sorted(have),
                  'kind_free_text': 'clang++-14 -S -emit-llvm of /repo sources -> own LLVM-IR->C translator -> CBMC 6.11 (SAT) with symbolic inputs, per-harness bounds, unwinding assertions, reachability twins'}],
     'checks': checks,
     'not_applicable': na,
-    'notes': 'All checks: ./check <id> --tier quick|thorough. Exit 0 held / 1 VIOLATION / 2 inconclusive. Known findings: known-findings.txt.',
+    'notes': 'All checks: ./check <id> --tier quick|thorough. Exit 0 held / 1 confirmed VIOLATION / 2 inconclusive (bound too small, timeout, tool error, unconfirmed counterexample, native mismatch) - never success. Known findings and fix: commits: known-findings.txt. Repairs made in /repo: bd8cbfa7 (C37), f659fd56 (C33).',
 }
 json.dump(m, open(ROOT + '/MANIFEST.json', 'w'), indent=1)
 print('checks: %d, not_applicable: %d' % (len(checks), len(na)))
